@@ -22,7 +22,7 @@ def _rand(rng, alpha, lo, hi):
     return "".join(rng.choice(alpha) for _ in range(rng.randint(lo, hi)))
 
 
-def gen_secret(rng, cls, plain_alpha=False, allow_all_digit_type7=False, reserved_variants=False):
+def gen_secret(rng, cls, plain_alpha=False, allow_all_digit_type7=False, reserved_variants=False, plain_class=None):
     """Return {"cls","text","cores","plain"?,"sub"?}.  Every value carries a high-entropy core."""
     if cls == "text" and reserved_variants and rng.random() < 0.12:
         # a case variant of a built-in reserved word that is not itself reserved (low entropy: no core search)
@@ -56,6 +56,10 @@ def gen_secret(rng, cls, plain_alpha=False, allow_all_digit_type7=False, reserve
     if cls == "type7":
         while True:
             plain = _rand(rng, string.ascii_letters + string.digits + "!@#$%", 5, 16)
+            if rng.random() < 0.2:
+                # passwords with Latin-1 bytes are legitimate type 7 too
+                j = rng.randrange(len(plain))
+                plain = plain[:j] + rng.choice("\xe9\xfc\xdf\xf1\xa3") + plain[j:]
             s = decoders.type7_encode(plain, rng.randint(0, 15))
             has_letter = re.search(r"[A-F]", s) is not None
             if has_letter:
@@ -79,8 +83,13 @@ def gen_secret(rng, cls, plain_alpha=False, allow_all_digit_type7=False, reserve
         assert decoders.j9_decode(s) is None
         return {"cls": cls, "text": s, "cores": [s, body], "sub": "foreign-char"}
     if cls == "j9":
-        plain = rng.choice(_NONHEX) + _rand(rng, string.ascii_letters + string.digits + "!@#%^&*_+-=", 7, 18)
-        return {"cls": cls, "plain": plain, "text": None, "cores": [plain]}
+        if plain_class == "numeric":
+            plain = _rand(rng, string.digits, 10, 16)
+        elif plain_class == "hex":
+            plain = rng.choice("23456789") + _rand(rng, "0123456789abcdef", 11, 20) + "e"
+        else:
+            plain = rng.choice(_NONHEX) + _rand(rng, string.ascii_letters + string.digits + "!@#%^&*_+-=", 7, 18)
+        return {"cls": cls, "plain": plain, "text": None, "cores": [plain], "plain_class": plain_class or "text"}
     raise ValueError(cls)
 
 
@@ -113,6 +122,9 @@ CATALOGUE = [
     # --- AWS
     F("aws-xml-psk", "<pre_shared_key>{s0}</pre_shared_key>", ["aws32"], quote=False),
     F("aws-json-psk", "\"PreSharedKey\": \"{s0}\",", ["aws32"], quote=False),
+    # the same form twice on one line (compact JSON): every occurrence must go
+    F("aws-json-psk-twice", "{\"a\": {\"PreSharedKey\": \"{s0}\"}, \"b\": {\"PreSharedKey\": \"{s1}\"}}", ["aws32"], quote=False, note="multi"),
+    F("aws-xml-psk-twice", "<pre_shared_key>{s0}</pre_shared_key><x/><pre_shared_key>{s1}</pre_shared_key>", ["aws32"], quote=False, note="multi"),
     # --- Fortinet
     F("forti-set-password-enc", "set password ENC {s0}"),
     F("forti-set-password", "set password {s0}"),
@@ -281,7 +293,7 @@ IPS = ["10.1.2.3", "192.0.2.7", "1.1.1.1", "172.20.5.9"]
 QUOTES = [("", ""), ("\"", "\""), ("'", "'"), ("\"", "\";"), ("", ";"), ("[", "]"), ("{", "}"), ("\\\"", "\\\""), ("", ",")]
 
 
-def render(rng, form, slot_texts, indent=None, quote=None, trail=None, fill=None):
+def render(rng, form, slot_texts, indent=None, quote=None, trail=None, fill=None, u_is_secret=False):
     """Instantiate a form.  Returns (line_without_eol, parts) where parts is a list of
     ("lit", text) / ("slot", index, head, text, tail) in order, for position-based extraction."""
     fill = fill or {}
@@ -311,6 +323,8 @@ def render(rng, form, slot_texts, indent=None, quote=None, trail=None, fill=None
             parts.append(("slot", idx, h, slot_texts[idx], t))
         else:
             key = (name, m.start())
+            if key not in fill and name == "u" and u_is_secret and slot_texts and re.fullmatch(r"[A-Za-z0-9_.+=!@#%^&*/?~-]+", slot_texts[0] or " "):
+                fill[key] = slot_texts[0]  # an ordinary token that happens to read like the secret
             if key not in fill:
                 fill[key] = {"u": lambda: rng.choice(USERS), "n": lambda: str(rng.randint(1, 250)),
                              "ip": lambda: rng.choice(IPS)}[name]()
